@@ -410,6 +410,22 @@ def trough_alias(ctx) -> None:
     f = ctx.prog.require_func("Labware.__init__", rule)
     fv = ctx.fv(f)
     n_found = 0
+    direct = [n for n in fv.cfg.nodes if n.kind == "stmt" and isinstance(n.ast, ast.Assign) and isinstance(n.ast.targets[0], ast.Attribute) and n.ast.targets[0].attr == "_indices"]
+    if len(direct) < 2 or not all(isinstance(n.ast.value, ast.DictComp) for n in direct):
+        # the index map is not written as the two comprehensions (plate / trough): evaluate the constructor's table for a
+        # table of geometries instead (see init_model.py)
+        from . import init_model
+
+        v, detail = init_model.verdict(ctx, "_indices")
+        c = f"{f.qualname}/_indices[evaluated]"
+        ctx.rep.touch(f)
+        if v == "holds":
+            ctx.rep.holds(rule, c, detail + ": plate IDs map to (r, c), every virtual row of a trough column to (0, c)", where=f.where())
+        elif v == "refuted":
+            ctx.rep.refuted(rule, c, detail, where=f.where())
+        else:
+            ctx.rep.inconclusive(rule, c, detail, where=f.where())
+        return
     for n in fv.cfg.nodes:
         if n.kind != "stmt" or not isinstance(n.ast, ast.Assign):
             continue
